@@ -15,12 +15,12 @@
    modelled) and the composition is decided by the correspondence check (Spec inflate on the real
    wire + the reader model on the real stream) together with Props/C03 (any conformant deflater)
    and Proofs/InflateP (inflate o stored-deflate = id).  (2) read program = ReadMessage loop with
-   default handlers (other read programs: Props/C03's independence theorems).  (3) hypothesis
-   [ctl_writers_closed]: a control-type message writer obtained from NextWriter is closed by the
-   application rather than left to the implicit close of the next NextWriter/WriteMessage (the
-   two Examples in WriterEventsP show what happens otherwise: the implicit close drops an invalid
-   control message silently, which the abstract writer does not describe); C01_wire_events_data_next
-   removes it for programs that use NextWriter for data messages only.  (4) ReadJSON/WriteJSON
+   default handlers (other read programs: Props/C03's independence theorems).  (3) (closed) the
+   former hypothesis [ctl_writers_closed] (control-type message writers obtained from NextWriter
+   are closed explicitly) is gone: the abstract writer now describes a failed Write (the message
+   is abandoned) and the implicit close by the next NextWriter/WriteMessage (an invalid control
+   message is dropped silently, a close message closes the connection) exactly, see the Examples
+   in WriterEventsP; the theorems below hold for every write program.  (4) ReadJSON/WriteJSON
    and JoinMessages are thin wrappers exercised by the harness only. *)
 Require Import WS.Base.Bytes WS.gen.Consts WS.Spec.Frame WS.Spec.WriterSpec.
 Require Import WS.Model.Writer.
@@ -54,12 +54,35 @@ Theorem C01_wire_wellformed_and_events :
     Forall (fun k => length k = 4%nat) ks -> Forall op_small ops -> no_prepared ops ->
     let r := wrun c (init_wst c ks None) ops in
     let prog := combine (map wop_aop ops) (map e_werr_N (fst r)) in
-    ctl_writers_closed ast0 prog ->
     exists fs, wire_of (evs (snd r)) = encode_frames fs /\ Forall wf_frame fs /\
       wf_wire (negb (w_server c)) false (map (fun f => (f, true)) fs) = true /\
       map sent_of_event (events_of fs) = a_out (arun false ast0 prog).
 Proof. exact (wire_wellformed_and_events ). Qed.
 Print Assumptions C01_wire_wellformed_and_events.
+
+Theorem C01_wire_events_and_boundary :
+  forall c ks ops fs,
+    14 < w_bufsize c -> w_bufsize c < 2^62 -> w_negotiated c = false ->
+    Forall (fun k => length k = 4%nat) ks -> Forall op_small ops -> no_prepared ops ->
+    let r := wrun c (init_wst c ks None) ops in
+    let prog := combine (map wop_aop ops) (map e_werr_N (fst r)) in
+    Forall wf_frame fs -> wire_of (evs (snd r)) = encode_frames fs ->
+    map sent_of_event (events_of fs) = a_out (arun false ast0 prog) /\
+    (a_dead (arun false ast0 prog) = false -> a_open (arun false ast0 prog) = None ->
+     snd (events_from None fs) = None).
+Proof. exact (wire_events_and_boundary ). Qed.
+Print Assumptions C01_wire_events_and_boundary.
+
+Theorem C01_abstract_flags_exact :
+  forall c ks ops,
+    14 < w_bufsize c -> w_bufsize c < 2^62 -> w_negotiated c = false ->
+    Forall (fun k => length k = 4%nat) ks -> Forall op_small ops -> no_prepared ops ->
+    let r := wrun c (init_wst c ks None) ops in
+    let A := arun false ast0 (combine (map wop_aop ops) (map e_werr_N (fst r))) in
+    (a_dead A = true <-> werr (snd r) <> None) /\
+    (a_dead A = false -> (a_open A = None <-> cur (snd r) = None)).
+Proof. exact (abstract_flags_exact ). Qed.
+Print Assumptions C01_abstract_flags_exact.
 
 Theorem C01_wire_events_data_next :
   forall c ks ops fs,
@@ -102,7 +125,6 @@ Theorem C01_round_trip_end_to_end :
     let r := wrun c (init_wst c ks None) ops in
     let prog := combine (map wop_aop ops) (map e_werr_N (fst r)) in
     let A := arun false ast0 prog in
-    ctl_writers_closed ast0 prog ->
     a_dead A = false ->              (* no close message was sent (and no transport error seen) *)
     a_open A = None ->               (* no message left open by the application *)
     server cr = negb (w_server c) -> custom_handlers cr = false ->
